@@ -44,8 +44,29 @@ func (r *rend) kw(s string) {
 	r.toks = append(r.toks, tok{s, true})
 }
 
+func plainIdent(s string) bool {
+	if s == "" {
+		return false
+	}
+	for i, ch := range s {
+		if ch == '_' || ch >= 'a' && ch <= 'z' || ch >= 'A' && ch <= 'Z' || (i > 0 && ch >= '0' && ch <= '9') {
+			continue
+		}
+		return false
+	}
+	return !reserved[strings.ToUpper(s)]
+}
+
+var reserved = map[string]bool{}
+
+func init() {
+	for _, k := range strings.Fields("TRUE FALSE AND OR AS ASC AVG BEGIN BY CASE COMMIT COUNT CREATE DATABASE DELETE DESC DISTINCT ELSE END EXISTS FROM FULL GROUP HAVING IN INNER INSERT INTO JOIN LEFT LIKE LIMIT MAX MIN NOT NULL OFFSET ON ORDER OUTER RIGHT SELECT SET SHOW SUM BOOLEAN INT BIGINT VARCHAR TABLE THEN UNION UNIQUE UPDATE USE VALUES WHEN WHERE WITH") {
+		reserved[k] = true
+	}
+}
+
 func (r *rend) id(s string) {
-	if r.st.QuoteIDs {
+	if r.st.QuoteIDs || !plainIdent(s) {
 		r.toks = append(r.toks, tok{`"` + s + `"`, false})
 		return
 	}
